@@ -1573,6 +1573,199 @@ def correspond(run: Run) -> None:
         compare(run, cases[i:i + 500])
 
 
+
+# ------------------------------------------------------------------ phase 5: array:sort with key function / special values
+# One request per case (`XSORT K=… M=…`), outside the histories: the model `arrSortPy`, the spec
+# `Spec.arrSort` (F&O 3.1 §16.2.6 deep-less-than, selection of the first minimum) and the real
+# `array:sort($a, (), $key)` on the same members; the driver's third field says whether a key function
+# meets a member that is not one item (the situation of the fixed finding F15z) — histogram only.
+KFNS = {
+    'none': None,
+    'id': 'function($m){$m}',
+    'cnt': 'function($m){count($m)}',
+    'rev': 'function($m){reverse($m)}',
+    'head': 'function($m){$m[1]}',
+    'const': 'function($m){0}',
+    'intfirst': 'function($m){(not($m instance of xs:integer), $m)}',
+    'parity': 'function($m){(count($m) mod 2, count($m))}',
+}
+XS_NUMS = [('f', 'NaN'), ('f', 'INF'), ('f', '-INF'), ('f', '-0.0'), ('i', 0), ('f', '0'), ('i', 1), ('d', '1.0'), ('f', '1'),
+           ('i', -3), ('d', '1.5'), ('f', '2.5'), ('d', '2.50'), ('i', 100000000000000000000), ('f', '1e20'),
+           ('d', '0.1'), ('f', '0.1'), ('i', 2), ('f', '-1e300'), ('d', '-0.5')]
+XS_STRS = [('s', 'a'), ('s', 'b'), ('s', ''), ('s', 'ab'), ('s', 'é'), ('s', 'B'), ('s', '1'), ('s', 'aa')]
+XS_BOOLS = [('b', True), ('b', False)]
+
+
+def xsort_line(kf, members) -> str:
+    return 'XSORT K=%s M=%s' % (kf, ';'.join('e' if not m else '+'.join(key_proto(k) for k in m) for m in members))
+
+
+def xsort_xpath(kf, members, form=0) -> str:
+    arr = '[' + ', '.join('(' + ', '.join(key_xpath(k) for k in m) + ')' if len(m) != 1 else key_xpath(m[0])
+                          for m in members) + ']'
+    if KFNS[kf] is None:
+        return f'array:sort({arr})' if form == 0 else f'array:sort({arr}, ())'
+    return f'array:sort({arr}, (), {KFNS[kf]})'
+
+
+def xsort_impl(expr: str) -> str:
+    _setup()
+    from elementpath import XPathContext
+    try:
+        res = _PARSER().parse(expr).evaluate(XPathContext(_ROOT))
+        out = []
+        for m in res.items():
+            items = m if isinstance(m, list) else [m]
+            out.append('e' if not items else '+'.join(atom_text(x) for x in items))
+        return 'ok:' + ';'.join(out)
+    except RecursionError:
+        return 'ERR:OTHER:RecursionError'
+    except Exception as e:  # noqa -- everything the implementation raises is an observation
+        return err_text(e)
+
+
+def gen_xsort(rng):
+    kf = rng.choice(['none', 'none', 'none', 'id', 'cnt', 'rev', 'head', 'const', 'intfirst', 'parity'])
+    r = rng.random()
+    mode = ('num' if r < 0.45 else 'bool' if r < 0.58 else 'str' if r < 0.72 else 'boolnum' if r < 0.84 else 'mixed')
+    if mode == 'mixed' and kf == 'intfirst':
+        kf = 'id'
+    if mode == 'boolnum' and kf == 'rev':
+        # reverse() would put items of different classes at the same key position, where the code raises
+        # XPTY0004 only if its algorithm compares that pair at that position (not modelled)
+        kf = 'id'
+    single = mode == 'mixed' or (kf != 'none' and rng.random() < 0.7)
+    members = []
+    for _ in range(rng.choice([0, 1, 2, 2, 3, 3, 4, 5, 6])):
+        if mode == 'mixed':
+            # different classes only in one-item members (keys): some comparison must meet them
+            members.append([rng.choice(rng.choice([XS_NUMS, XS_STRS, XS_BOOLS]))])
+            continue
+        k = 1 if single else rng.choice([1, 1, 1, 0, 2, 2, 3])
+        if mode == 'boolnum':
+            # a boolean first, numbers after it: classes agree position by position
+            k = max(k, 1)
+            members.append([rng.choice(XS_BOOLS)] + [rng.choice(XS_NUMS) for _ in range(k - 1)])
+        else:
+            pool = {'num': XS_NUMS, 'bool': XS_BOOLS, 'str': XS_STRS}[mode]
+            members.append([rng.choice(pool) for _ in range(k)])
+    if members and rng.random() < 0.3:
+        members.insert(rng.randrange(len(members) + 1), list(rng.choice(members)))      # ties: stability
+    return (kf, members, mode)
+
+
+_N, _I, _M, _Z = ('f', 'NaN'), ('f', 'INF'), ('f', '-INF'), ('f', '-0.0')
+XSORT_CORPUS = [
+    ('none', [[_N], [('i', 1)], [_M], [_I], [_Z], [('i', 0)], [('f', '0')], [_N], [('d', '1.0')]], 'num'),
+    ('none', [[('i', 1), _N], [('i', 1), _M], [('i', 1)], [], [('d', '1.0'), _I], [('f', '1'), ('i', 5)]], 'num'),
+    ('none', [[('b', True)], [('b', False)], [('b', True)], [('b', False)]], 'bool'),
+    ('none', [[('b', True), ('i', 1)], [('b', False), _I], [('b', True), _N], [('b', True)]], 'boolnum'),
+    ('none', [[('b', True)], [('i', 1)]], 'mixed'),
+    ('none', [[_N], [('s', 'a')]], 'mixed'),
+    ('none', [[('b', True), ('s', 'a')]], 'mixed'),
+    # key functions on one-item members
+    ('intfirst', [[('d', '0.5')], [('i', 3)], [_N], [('i', 1)], [('f', '0.25')]], 'num'),
+    ('const', [[('i', 3)], [('i', 1)], [('i', 2)]], 'num'),
+    ('parity', [[('i', 3)], [('i', 1)]], 'num'),
+    ('head', [[('s', 'b')], [('s', 'a')], [('s', 'b')]], 'str'),
+    ('cnt', [[('i', 3)]], 'num'),
+    ('cnt', [[('i', 3), ('i', 4)]], 'num'),
+    # fixed finding F15z: a key function and a member that is not one item
+    ('cnt', [[('i', 1), ('i', 2)], []], 'num'),
+    ('id', [[('i', 2)], [('i', 1), ('i', 0)]], 'num'),
+    ('rev', [[('i', 1), ('i', 2)], [('i', 2), ('i', 1)], [('i', 0)]], 'num'),
+    ('parity', [[('i', 1), ('i', 2)], [('i', 0)], []], 'num'),
+]
+
+
+def compare_xsort(run: Run, cases, count=True) -> None:
+    lines = [xsort_line(kf, ms) for kf, ms, _ in cases]
+    answers = run.driver('C15', lines)
+    st = run.stats
+    for idx, ((kf, ms, mode), line, ans) in enumerate(zip(cases, lines, answers)):
+        expr = xsort_xpath(kf, ms, idx % 2)
+        case = {'xsort': {'key': kf, 'members': to_jsonable(ms), 'mode': mode}, 'expr': expr, 'line': line}
+        if ans.startswith('bad-') or ans.count('~') != 2:
+            run.disagree(Disagreement(case, 'driver:' + ans, what='protocol'))
+            continue
+        model, spec, defect = ans.split('~')
+        impl = xsort_impl(expr)
+        if count:
+            st.case(line, nontrivial=len(ms) > 1)
+            st.count('op:xsort')
+            st.count('xsort:key=' + kf)
+            st.count('xsort:class=' + mode)
+            st.count('xsort:members=' + str(min(len(ms), 6)))
+            st.count('xsort:status:' + (impl if impl.startswith('ERR') else 'ok'))
+            flat = [k for m in ms for k in m]
+            for name, k in (('NaN', _N), ('INF', _I), ('-INF', _M), ('-0', _Z)):
+                if k in flat:
+                    st.count('xsort:has:' + name)
+            if any(k[0] == 'b' for k in flat):
+                st.count('xsort:has:boolean')
+            if any(len(m) != 1 for m in ms):
+                st.count('xsort:sequence-members')
+            if len(set(map(repr, ms))) < len(ms):
+                st.count('xsort:equal-members')
+            if defect == '1':
+                st.count('xsort:key-function-on-sequence-member')
+        site = 'elementpath/xpath31/_xpath31_functions.py evaluate__array_sort, elementpath/compare.py get_key_function/deep_compare'
+        if impl != spec:
+            run.disagree(Disagreement(case, impl, model, spec=spec, what='array:sort result/status (key function, special values)',
+                                      site=site))
+            continue
+        if impl != model:
+            run.disagree(Disagreement(case, impl, model, what='model-vs-code array:sort', site=site))
+
+
+def correspond_xsort(run: Run) -> None:
+    n = run.scale(1500, 15000)
+    run.stats.rule = (run.stats.rule or '') + (
+        '; plus array:sort cases (XSORT): arrays of 0..7 members, each a sequence of 0..3 items of one class per position '
+        '(numbers incl. NaN, INF, -INF, -0.0 / strings / booleans / a boolean followed by numbers; classes mixed only in '
+        'one-item members), no key function or one of 7 inline key functions, 30 % with a repeated member (ties); real '
+        'array:sort vs Lean model arrSortPy (exact) vs Lean spec Spec.arrSort (F&O deep-less-than, selection sort)')
+    cases = list(XSORT_CORPUS) + [gen_xsort(run.rng) for _ in range(n)]
+    for i in range(0, len(cases), 1000):
+        compare_xsort(run, cases[i:i + 1000])
+
+
+def xsort_small_scope():
+    from itertools import product
+    atoms = [_N, _M, ('i', 0), _Z, ('d', '1.0'), _I, ('b', True), ('b', False), ('s', 'a')]
+    cases = []
+    for kf in ('none', 'id', 'intfirst'):
+        for n in (2, 3):
+            for ms in product(atoms, repeat=n):
+                if kf == 'intfirst' and len({a[0] in 'ifd' for a in ms} | {a[0] for a in ms if a[0] in 'bs'}) > 1:
+                    continue
+                cases.append((kf, [[a] for a in ms], 'small'))
+    return cases
+
+
+def shrink_xsort(d: Disagreement) -> Disagreement:
+    x = d.case['xsort']
+    kf, ms, mode = x['key'], [[(k[0], k[1]) for k in m] for m in x['members']], x['mode']
+    best = d
+
+    def fails(cand):
+        sub = Run(PROP, 'quick', 0)
+        compare_xsort(sub, [(kf, cand, mode)], count=False)
+        for y in sub.disagreements:
+            if y.kind == d.kind and bool(y.tags) == bool(d.tags):
+                return y
+        return None
+    changed = True
+    while changed:
+        changed = False
+        for i in range(len(ms)):
+            cand = ms[:i] + ms[i + 1:]
+            y = fails(cand)
+            if y is not None:
+                ms, best, changed = cand, y, True
+                break
+    return best
+
 # ------------------------------------------------------------------------------- search
 def small_scope_cases():
     """every single operation applied to every small map / array over a pool of keys that contains
@@ -1619,7 +1812,10 @@ def search(run: Run):
     rng = random.Random(f'C15-search/{run.seed}')
     more = [Gen(rng).build() for _ in range(1500)]
     compare(sub, more, count=False)
-    run.notes.append(f'search: {len(cases)} small-scope + {len(more)} random histories, '
+    xs = xsort_small_scope() + [gen_xsort(rng) for _ in range(3000)]
+    for i in range(0, len(xs), 1000):
+        compare_xsort(sub, xs[i:i + 1000], count=False)
+    run.notes.append(f'search: {len(cases)} small-scope + {len(more)} random histories + {len(xs)} array:sort cases, '
                      f'{len(sub.disagreements)} disagreements')
     return sub.disagreements
 
@@ -1627,6 +1823,8 @@ def search(run: Run):
 def shrink(d: Disagreement) -> Disagreement:
     """the reported prefix already ends at the first failing step; greedily drop every earlier step
     whose removal keeps a disagreement of the same kind (re-running model, spec and real code)"""
+    if isinstance(d.case, dict) and 'xsort' in d.case:
+        return shrink_xsort(d)
     if not isinstance(d.case, dict) or 'history' not in d.case:
         return d
     ops = from_jsonable(d.case['history'])
@@ -1663,6 +1861,7 @@ def body(run: Run) -> int:
         'Python semantics of ==/hash on int, Decimal, float, bool, str (modelled by Key.eqRep / Key.dictRep)',
         'dict insertion order of CPython',
         'the reading of F&O 3.1 §17 in EPV/Spec/FOMaps.lean',
+        'the reading of F&O 3.1 §16.2.6 (deep-less-than, fn:sort) in EPV/Spec/FOSort.lean; KFn.apply as the model of the 7 inline key functions',
     ]
     run.assumptions += [
         'keys are restricted to xs:integer, xs:decimal, xs:double, xs:string, xs:anyURI, xs:boolean, xs:date '
@@ -1670,7 +1869,7 @@ def body(run: Run) -> int:
         'values are atoms, maps, arrays and sequences of them (no nodes, no function items other than maps/arrays)',
         'hash(naive datetime) != hash(aware datetime) for the dates used (no accidental collision)',
     ]
-    run.prove(['EPV.Props.C15'], ['EPV.Lemmas.MapArrayKeys'])
+    run.prove(['EPV.Props.C15', 'EPV.Props.C15Sort'], ['EPV.Lemmas.MapArrayKeys', 'EPV.Spec.FOSort'])
     try:
         if getattr(run, 'replay', None):
             import json
@@ -1681,6 +1880,7 @@ def body(run: Run) -> int:
                 compare(run, [from_jsonable(hist)])
                 return run.finish('proof', shrink=shrink, search=None)
         correspond(run)
+        correspond_xsort(run)
     except DriverError as e:
         run.broken.append('driver:C15 ' + str(e)[:300])
     return run.finish('proof', shrink=shrink, search=search)
